@@ -845,7 +845,7 @@ def obligations(tier):
     tc = 60 if quick else 300
     maxn = 3 if quick else 4
     obs += [
-        Ob('C18.lex.integer', 'harness.C18', 'integer_lex', bind={'maxn': maxn}, timeout=150 if quick else 1500, functions=F_LEX[:2],
+        Ob('C18.lex.integer', 'harness.C18', 'integer_lex', bind={'maxn': maxn}, timeout=200 if quick else 1500, functions=F_LEX[:2],
            stubs=CH_STUB[:1],
            bounds=f'every text of <= {maxn} characters from the pool 0 1 9 + - _ space tab . e a U+0663 U+00A0 '
                   f'({sum(13 ** k for k in range(maxn + 1))} texts, chosen by selectors; int() on a symbolic str is concretised by CrossHair)',
@@ -860,7 +860,7 @@ def obligations(tier):
                   'SafetyClassification, AlertSignalPresence)',
            claim='EnumConverter.to_py(s) returns => s is exactly a literal of the enumeration; to_xml gives s back; literals are accepted'),
     ]
-    obs.append(Ob('C18.lex.decimal', 'harness.C18', 'decimal_lex', bind={'maxn': maxn}, timeout=150 if quick else 1500,
+    obs.append(Ob('C18.lex.decimal', 'harness.C18', 'decimal_lex', bind={'maxn': maxn}, timeout=200 if quick else 1500,
                   functions=F_LEX[6:], stubs=CH_STUB,
                   bounds=f'every text of <= {maxn} characters from the pool "01.-+e_ NaInf" ({sum(13 ** k for k in range(maxn + 1))} texts, '
                          'chosen by selectors; decimal.Decimal is C code and runs concretely)',
@@ -868,7 +868,7 @@ def obligations(tier):
     for neg in (False, True):
         bind = {'neg': neg, 'dg': 1} if quick else {'neg': neg}
         obs.append(Ob(f'C18.dec.runs.{"neg" if neg else "pos"}', 'harness.C18', 'decimal_to_xml_runs',
-                      bind=bind, timeout=150 if quick else 900, functions=F_DEC + [DC + '.DecimalConverter.to_py'],
+                      bind=bind, timeout=200 if quick else 900, functions=F_DEC + [DC + '.DecimalConverter.to_py'],
                       stubs=['digit-run family: [-] D^a (or 0) . 0^b D^c 0^d with a+b+c+d <= 18, d <= 2; run lengths chosen by selectors, '
                              'the real to_xml (real Decimal.__str__, real float path) runs concretely'],
                       bounds=f'all run lengths a, b, c <= 18, d <= 2 with a+b+c+d <= 18 (3439 texts per digit), digit D '
